@@ -624,6 +624,9 @@ _reg('start_with', '*', _same, lambda n, e: call(rs.ops.start_with, [('padding',
 # an RxPY-native operator with inner observables (only placed by C08, in branches on plain observables): its inner
 # subscriptions are scheduler-driven, so on a cold trampolined source they emit after the source has completed
 _reg('rxflat', 'i', 'i', lambda n, e: _rxops.flat_map(lambda x: rx.from_([x, x + 1])), ['dual'])
+# an RxPY-native pass-through (a do_action left in for logging, a user operator written with rx.create) as the LAST operator of a
+# branch on a multiplexed source (only placed by C08): it forwards the mux events unchanged but returns a plain rx Observable
+_reg('rxtap', '*', _same, lambda n, e: _rxops.do_action(on_next=lambda x: None), ['dual'])
 _reg('ignore', '*', _same, lambda n, e: rs.error.ignore(), ['mux_only'])
 _reg('error_map', '*', _same, lambda n, e: rs.error.map((e or {}).get('error_map', lambda err: -1)), ['mux_only'])
 _reg('route', '*', _same, lambda n, e: e['route'](), ['mux_only'])
